@@ -2,9 +2,9 @@ SPECIFICATION Spec
 CONSTANTS
   WithDisconnect = TRUE
   WithLocalClose = TRUE
-  WithKeepAliveErr = TRUE
+  WithKeepAliveErr = FALSE
   WithCtxCancel = TRUE
-  WithKeepAlive = FALSE
+  WithKeepAlive = TRUE
   BugKaNoCtxCheck = FALSE
   BugKaNoDiscCheck = FALSE
 CHECK_DEADLOCK FALSE
